@@ -37,6 +37,7 @@ def execute(sc):
         st, res, tr, V0 = c06.run_and_judge(sc, {'C12', 'C11'}, ID)
     V = common.Viol()
     V.counters = V0.counters
+    V.states = V0.states
     for v in V0.list:
         if v['sig'].startswith('C12/'):
             V.list.append(v)
